@@ -22,7 +22,13 @@
 (*    one is inverted by candidate 1, the textbook one by candidate 2 of InvCands;  *)
 (*  - PickAnchor enumerates the anchor facts derived from the documented constants; *)
 (*    AnchorTheorems: they are closed under inversion and mutually consistent with  *)
-(*    an isometry where the separation is plain arithmetic.                         *)
+(*    an isometry where the separation is plain arithmetic;                         *)
+(*  - WorldStep enumerates SESSIONS of <= WorldLen steps in one process (rotate at  *)
+(*    twin Euler triples with / without undoing, every conversion x epoch, randcap  *)
+(*    as another entry point, the caller scribbling over results) through the memo  *)
+(*    mechanism MemoKind; WorldFresh: every call works with the parameters it was   *)
+(*    given, as in a fresh world ("exact" / "none" satisfy it, the coarse '%g' key   *)
+(*    "g6" and the storage-sharing "alias" violate it); the sessions are exported.   *)
 EXTENDS Frames, Json, SequencesExt
 
 CONSTANTS MaxLen,      \* paths of length 1..MaxLen
